@@ -168,6 +168,8 @@ type Options struct {
 	// Init is a history applied to every fresh instance before the search starts (searching from a non-initial
 	// state: "everything installed" reaches retargeting behaviour at small depth).
 	Init []Letter
+	// Lag (resolved-entry tier): the hook goroutines run only after the whole history has been applied.
+	Lag bool
 }
 
 type inst struct {
